@@ -26,11 +26,16 @@ CheckStack(r) ==
   \A k \in 1..Len(r.obs) :
      LET o  == r.obs[k]
          st == StackOf(r, o.hasSub)
-     IN /\ Chk("C12_Precedence_a", k, o.a \in RefValues(st, "a", r.defaults.a))
-        /\ Chk("C12_Precedence_b", k, o.b \in RefValues(st, "b", r.defaults.b))
+         ia == ImplValueG(StackOf(r, TRUE), "a", r.defaults.a, TRUE, TRUE, TRUE, o.hasSub)
+         ib == ImplValueG(StackOf(r, TRUE), "b", r.defaults.b, TRUE, TRUE, TRUE, o.hasSub)
+         ra == RefValues(st, "a", r.defaults.a)
+         rb == RefValues(st, "b", r.defaults.b)
+     IN \* outside the documented precedence AND not explained by the whole-entry replacement of process_config_file
+        /\ Chk("C12_Precedence", k, (o.a \in ra \/ o.a = ia) /\ (o.b \in rb \/ o.b = ib))
+        \* outside the documented precedence because a later source replaced a whole section (known behaviour of the loader)
+        /\ Chk("C12_PrecedenceEntryReplaced", k, ~((o.a \notin ra /\ o.a = ia) \/ (o.b \notin rb /\ o.b = ib)))
         /\ Chk("C12_ActsOnEffectiveValue", k, o.acts)
-        /\ Chk("DRIFT_ImplModel_a", k, o.a = ImplValue(st, "a", r.defaults.a, TRUE, TRUE, TRUE))
-        /\ Chk("DRIFT_ImplModel_b", k, o.b = ImplValue(st, "b", r.defaults.b, TRUE, TRUE, TRUE))
+        /\ Chk("DRIFT_ImplModel", k, o.a = ia /\ o.b = ib)
 
 CheckCfgError(r) ==
   /\ Chk("C12_UnknownRuleRejected", 0, r.diagnosed /\ r.exit # 0)
